@@ -18,7 +18,8 @@ EXPLANATION = (
     'exactly these two kinds; R1.4 shape of the scan loop on its enumerated paths (one yield of the whole match per '
     'matching path, consume(it, m.end()-pos-1), break; Error fallback in for-else); R1.5 is_keyword returns its '
     'argument unmodified; R1.6 the compiled rule is bound to .match with the lexer flags; R1.7 utils.consume drains '
-    'exactly islice(it, n); R1.8 the str input is never rewritten before the scan.')
+    'exactly islice(it, n); R1.8 the str input is never rewritten before the scan; '
+    'R1.9 the default lexer handed out by get_default_instance is completely initialised (lock discipline) and the input is scanned in one piece.')
 
 
 def run(ctx):
@@ -62,6 +63,10 @@ def run(ctx):
     check_is_keyword(ctx)
     check_set_regex(ctx)
     check_consume(ctx)
+    from .. import rules_lexer as RL
+    ctx.rule('R1.9', 'tokenize() uses the lock-protected, completely initialised default lexer and lexes the whole input in one scan', floor=5)
+    RL.check_singleton_lock(ctx, 'R1.9')
+    RL.check_whole_text(ctx, 'R1.9')
 
 
 def shortest_match(pattern):
